@@ -527,6 +527,40 @@ def controller_probe(spec):
                 sorted(k.decode() for k in last.structs)]
 
 
+# ------------------------------------- a machine description edited in place
+
+def strat_edited(tier):
+    from vf.props import c03
+    return c03.strat_links(tier).filter(
+        lambda c: c.get("late_faults") and (c["late_faults"]["dead_links"] or
+                                            c["late_faults"]["dead_chips"]))
+
+
+def check_edited(case):
+    """A Machine that was routed on, then had further faults recorded on it
+    in place, routes like a Machine built with all of those faults."""
+    from vf.props import c03
+    from rig.place_and_route.exceptions import MachineHasDisconnectedSubregion
+
+    def shapes(c):
+        try:
+            routes, nets, vobj = c03.run_route(c)
+        except MachineHasDisconnectedSubregion:
+            return "disconnected"
+        return [c03._shape(routes[n]) for n in nets]
+    edited = shapes(case)
+    fresh = shapes(dict(case, late_faults=None))
+    if edited != fresh:
+        raise Violation(
+            "routing on a Machine object that was routed on before and then "
+            "edited in place differs from routing on an equal Machine built "
+            "afresh", {"late_faults": case["late_faults"],
+                       "edited": json.dumps(edited)[:500],
+                       "fresh": json.dumps(fresh)[:500]})
+    return {"nontrivial": fresh != "disconnected",
+            "classes": ["mesh" if case["machine"]["mesh"] else "torus"]}
+
+
 CLAUSES = [
     Clause("arguments-unchanged", check_args, strategy=strat_args,
            rule="the generated problems of C01 run stage by stage (place "
@@ -555,4 +589,12 @@ CLAUSES = [
                 "kind with other arguments",
            examples={"quick": 250, "thorough": 4000},
            shards={"quick": 8, "thorough": 16}),
+    Clause("edited-machine", check_edited, strategy=strat_edited,
+           rule="C03's machines with 10-30% one-way dead links, some of "
+                "which are only recorded on the Machine object after it has "
+                "been routed on once: the routes must equal those on a "
+                "Machine built with all faults; non-trivial = the machine is "
+                "still connected",
+           examples={"quick": 300, "thorough": 5000},
+           shards={"quick": 4, "thorough": 16}),
 ]
